@@ -1,4 +1,5 @@
 import BinlogVerif.Lemmas.QueueMain
+import BinlogVerif.Lemmas.QueueRefine
 /-
   C01 — The lock-free SPSC byte queue (Queue / QueueWriter / QueueReader) is correct under the
   C++11 release/acquire memory model.
@@ -109,6 +110,54 @@ theorem c01_failed_begin_loses_nothing (o : Q.Orders) (h : o.Sufficient) (cap : 
   subst e1; subst e2
   refine ⟨sc2, hsc2, ?_, hisc2.nr⟩
   rw [hisc.g9, hisc2.g9, a1, a2, a3, a4, b1, b2, b3, b4, f3, f4]
+
+/-- **C01.5 — a poll returns exactly the commits up to the message it read** (the refinement the session layer
+    uses: a channel is a FIFO of whole commits of which a poll observes a prefix).  From any reachable state, a
+    `beginRead` that reads W message `i` (any `i` coherence allows: `cWidx ≤ i ≤ commits.length`) leaves the logs alone
+    and returns the batch that, appended to everything delivered before, is the concatenation of the FIRST `i` COMMITS —
+    whatever was released earlier, however stale `i` is, across wrap-arounds. -/
+theorem c01_poll_is_commit_prefix (o : Q.Orders) (h : o.Sufficient) (cap : Nat) (tr : List Q.Op) (s : Q.St)
+    (run : Q.exec o (Q.init cap) tr = some s) (i : Nat) (sc : Q.St)
+    (hstep : Q.step o s (Q.Op.cBegin i) = some sc) :
+    s.cWidx ≤ i ∧ i ≤ s.commits.length ∧ sc.commits = s.commits ∧ sc.delivered = s.delivered ∧
+    s.delivered.flatten ++ sc.batch = (s.commits.take i).flatten := by
+  have hi := Q.inv_exec o h cap tr s run
+  obtain ⟨hc, m, hm⟩ := Q.cBegin_guards o s sc i hstep
+  obtain ⟨l1, l2, l3⟩ := Q.cBegin_logs o s sc i hstep
+  have hlen := Q.getElem?_lt_length _ _ _ hm
+  have := hi.g5
+  refine ⟨by omega, by omega, l2, l3, ?_⟩
+  have := Q.cBegin_prefix o h s sc hi i hstep
+  rwa [l2, l3] at this
+
+/-- **C01.6 — a poll with a fresh view gets everything.**  If the consumer's acquire load reads the NEWEST
+    writeIndex message (which it does whenever the poll happens-after the producer's last commit), the batch is
+    everything committed and not delivered yet: nothing stays behind in the queue. -/
+theorem c01_fresh_poll_gets_all (o : Q.Orders) (h : o.Sufficient) (cap : Nat) (tr : List Q.Op) (s : Q.St)
+    (run : Q.exec o (Q.init cap) tr = some s) (sc : Q.St)
+    (hstep : Q.step o s (Q.Op.cBegin s.commits.length) = some sc) :
+    s.delivered.flatten ++ sc.batch = s.commits.flatten := by
+  have := (c01_poll_is_commit_prefix o h cap tr s run _ sc hstep).2.2.2.2
+  rwa [List.take_length] at this
+
+/-- …and such a poll is always possible (the newest message is coherent for every view) -/
+theorem c01_fresh_poll_enabled (o : Q.Orders) (h : o.Sufficient) (cap : Nat) (tr : List Q.Op) (s : Q.St)
+    (run : Q.exec o (Q.init cap) tr = some s) : ∃ sc, Q.step o s (Q.Op.cBegin s.commits.length) = some sc := by
+  have hi := Q.inv_exec o h cap tr s run
+  have h5 := hi.g5
+  have h2 := hi.a2c
+  have hl : s.commits.length < s.wHist.length := by omega
+  exact Q.cBegin_enabled o s _ s.wHist[s.commits.length] (by omega) (List.getElem?_eq_getElem hl)
+
+/-- **C01.7 — release.**  `endRead` after that poll makes the delivered bytes exactly the first `i` commits. -/
+theorem c01_release_is_commit_prefix (o : Q.Orders) (h : o.Sufficient) (cap : Nat) (tr : List Q.Op) (s : Q.St)
+    (run : Q.exec o (Q.init cap) tr = some s) (i : Nat) (sc sd : Q.St)
+    (hstep : Q.step o s (Q.Op.cBegin i) = some sc) (hend : Q.step o sc Q.Op.cEnd = some sd) :
+    sd.delivered.flatten = (sd.commits.take i).flatten ∧ sd.commits = s.commits := by
+  obtain ⟨-, -, c1, c2, c3⟩ := c01_poll_is_commit_prefix o h cap tr s run i sc hstep
+  obtain ⟨d1, d2, -⟩ := Q.cEnd_logs o sc sd hend
+  rw [d1, d2, c1, c2]
+  exact ⟨c3, rfl⟩
 
 /-! ### Non-vacuity -/
 
